@@ -1,5 +1,6 @@
 import Driver.Util
 import MpcVerif.Model.Vole
+import MpcVerif.Model.VoleWire
 import MpcVerif.Model.Fx
 
 namespace Drv.C20
@@ -28,13 +29,22 @@ def hexBytes (l : List UInt8) : String :=
 def parseNats (s : String) : Option (List Nat) :=
   if s == "-" then some [] else (s.splitOn ",").mapM natOfHex
 
-/-- Concatenated 32-hex-digit labels. -/
+/-- Concatenated 32-hex-digit labels (one pass: row streams of 30000 and more
+labels are parsed). -/
 def parseLabels (s : String) : Option (List (BitVec 128)) :=
   if s == "-" then some [] else
   let cs := s.toList
   if cs.length % 32 != 0 then none else
-  (List.range (cs.length / 32)).mapM fun i =>
-    (natOfHex (String.ofList ((cs.drop (32 * i)).take 32))).map (BitVec.ofNat 128)
+  let rec go (cs : List Char) (acc k : Nat) (out : Array (BitVec 128)) : Option (Array (BitVec 128)) :=
+    match cs with
+    | [] => some out
+    | c :: cs =>
+      match Aes.hexVal c with
+      | none => none
+      | some d =>
+        if k + 1 = 32 then go cs 0 0 (out.push (BitVec.ofNat 128 (acc * 16 + d)))
+        else go cs (acc * 16 + d) (k + 1) out
+  (go cs 0 0 #[]).map Array.toList
 
 def natsStr (l : List Nat) : String :=
   if l.isEmpty then "-" else ",".intercalate (l.map hexNat)
@@ -58,6 +68,22 @@ def parseCalls : List String → Option (List Vole.Call)
 
 def sessionStr (s : Vole.Session) : String :=
   s!"r={natsStr s.rs};u={natsStr s.us};ymsg={hexBytes s.ymsg};umsg={hexBytes s.umsg}"
+
+/-- One call of a history with its WIRE bytes: the framed messages computed
+through the block-wise writer of `Model/VoleWire.lean` with write buffers of
+`cap` bytes.  `view`: "all", or one half of the line ("ru" / "msg") for
+vectors whose full line would exceed the line cap of the harness. -/
+def sessionWireStr (cap : Nat) (view : String) (c : Vole.Call) (s : Vole.Session) : String :=
+  let ru := s!"r={natsStr s.rs};u={natsStr s.us}"
+  let msg := s!"yfr={hexBytes (Vole.wireOf cap c.ys.length s.ymsg)};ufr={hexBytes (Vole.wireOf cap c.xs.length s.umsg)}"
+  if view == "ru" then ru else if view == "msg" then msg else s!"{ru};{msg}"
+
+/-- `<cap>` or `<cap>/<view>`. -/
+def parseCapView (s : String) : Option (Nat × String) :=
+  match s.splitOn "/" with
+  | [c] => c.toNat?.map (·, "all")
+  | [c, v] => c.toNat?.map (·, v)
+  | _ => none
 
 /-- `fx,<rl>,<a>,<b>` or `fxk,<r>,<s>,<b>`. -/
 def parseGCall (s : String) : Option Fx.GCall :=
@@ -91,6 +117,19 @@ def handle (args : List String) : String :=
       | .error e => errStr e
       | .ok (st, ss) => "|".intercalate (s!"pos={st.pos}" :: ss.map sessionStr)
     | _, _ => "bad-op"
+  -- volesw <cap>[/<view>] <row stream> (<p> <xs> <ys>)*: a history of Mul calls on one pair with the wire bytes
+  -- of every call as they leave through write buffers of <cap> bytes
+  | "volesw" :: capv :: stream :: rest =>
+    match parseCapView capv, parseLabels stream, parseCalls rest with
+    | some (cap, view), some stream, some calls =>
+      let arr := stream.toArray
+      let need := (calls.map fun c => Vole.roundUp8 c.xs.length).sum
+      if cap < 4 then "bad-cap" else
+      if arr.size < need then s!"stream-short {arr.size} {need}" else
+      match Vole.runCalls Vole.prgAes (fun i => arr.getD i 0#128) ⟨0⟩ calls with
+      | .error e => errStr e
+      | .ok (st, ss) => "|".intercalate (s!"pos={st.pos}" :: (calls.zip ss).map fun (c, s) => sessionWireStr cap view c s)
+    | _, _, _ => "bad-op"
   -- fxs <gadget call>*: a history of gadget calls over one OT instance
   | "fxs" :: rest =>
     match rest.mapM parseGCall with
